@@ -195,7 +195,8 @@ WILD_KEYS = {
 BAD_KEYS = {
     "basic-key": ["1abc", "_x", "a$b"],
     "identifier": ["a-b", "1a", "a.b"],
-    "ipaddr-or-hostname": ["-x", "999.1.1.1", "a"],
+    "ipaddr-or-hostname": ["-x", "999.1.1.1", "a", "1.2.3.256",
+                           "10.0.0.260", "1.2.3", "256.1.1.1"],
 }
 FIXED_SLOT_NAMES = ["main", "aux", "extra", "import"]
 SECTION_NAMES = ["n1", "n2", "N3", "main", "aux", "alpha", "zz",
